@@ -11,8 +11,11 @@ Inductive uobs := UOk (bya mba : bymap) | UErr | UPanic.
 Record unify_case := {
   u_originals : list string;
   u_inputs : list resolved;
-  u_runs : list uobs           (* the same call repeated: Go randomises set/map iteration *)
+  u_runs : list uobs;          (* the same call repeated: Go randomises set/map iteration *)
+  u_runs_rot : list uobs       (* the same with the first architecture moved to the end: the order of
+                                  [inputs] is the order of a Go map range in LockImageConfiguration *)
 }.
+Definition rotate {A} (l : list A) : list A := match l with [] => [] | x :: t => t ++ [x] end.
 
 Definition sort_by_key (m : bymap) : bymap := isort fst m.
 Definition entry_eqb (x y : string * list string) : bool :=
@@ -62,21 +65,234 @@ Definition judge_unify (originals : list string) (inputs : list resolved) (o : u
 Definition check_unify (c : unify_case) : list string :=
   let m := unify id_ord id_ordp (u_originals c) (u_inputs c) in
   let m' := unify rev_ord rev_ordp (u_originals c) (u_inputs c) in
-  match model_obs m, model_obs m' with
-  | Some mo, Some mo' =>
+  let mr := unify id_ord id_ordp (u_originals c) (rotate (u_inputs c)) in
+  match model_obs m, model_obs m', model_obs mr with
+  | Some mo, Some mo', Some mor =>
+      let wf := wf_inputs_b (u_inputs c) in
       tag_if (negb (uobs_eqb mo mo')) "mismatch:model-depends-on-iteration-order" ++
       tag_if (negb (forallb (uobs_eqb mo) (u_runs c))) "mismatch:unify-result" ++
-      (if wf_inputs_b (u_inputs c) && clean_originals_b (u_originals c)
-       then List.concat (List.map (judge_unify (u_originals c) (u_inputs c)) (firstn 1 (u_runs c)))
+      tag_if (negb (forallb (uobs_eqb mor) (u_runs_rot c))) "mismatch:unify-result-rotated-inputs" ++
+      (if wf && clean_originals_b (u_originals c)
+       then List.concat (List.map (judge_unify (u_originals c) (u_inputs c)) (firstn 1 (u_runs c))) ++
+            List.concat (List.map (judge_unify (u_originals c) (rotate (u_inputs c))) (firstn 1 (u_runs_rot c)))
        else []) ++
       tag_if (match u_runs c with
               | o :: more => negb (forallb (uobs_eqb o) more)
               | [] => false
-              end) "viol:unify-result-varies-between-identical-calls"
-  | _, _ => ["mismatch:model-out-of-fuel"]
+              end) "viol:unify-result-varies-between-identical-calls" ++
+      tag_if (wf && match u_runs c, u_runs_rot c with
+                    | o :: _, o' :: _ => negb (uobs_eqb o o')
+                    | _, _ => false
+                    end) "viol:unify-depends-on-architecture-order"
+  | _, _, _ => ["mismatch:model-out-of-fuel"]
   end.
 
 (* provided-name extraction of LockImageConfiguration (parts[0][1]) *)
 Record provname_case := { pn_in : string; pn_out : option string }.
 Definition check_provname (c : provname_case) : list string :=
   tag_if (negb (option_eqb String.eqb (provided_name (pn_in c)) (pn_out c))) "mismatch:provided-name".
+
+(* ---- stage "api": LockImageConfiguration on synthetic repositories ----------- *)
+(* one resolved package as observed: name/version/provides, its dependencies,
+   and whether this (name, version) is only obtainable from a tagged repository *)
+Record opkg := { q_pkg : rpkg; q_deps : list string; q_tagged_only : bool }.
+
+Record api_case := {
+  e_originals : list string;
+  e_resolution : option (list (string * list opkg));         (* per architecture, install order; None = failed *)
+  e_lock_runs : list uobs;                                   (* LockImageConfiguration, repeated *)
+  e_relock : list (string * option (list (string * string))); (* each per-arch lock resolved again *)
+  e_index_relock : option (option (list (string * list (string * string))))  (* the shared lock, when nothing is missing *)
+}.
+
+Fixpoint insert_everywhere {A} (x : A) (l : list A) : list (list A) :=
+  match l with
+  | [] => [[x]]
+  | y :: t => (x :: l) :: List.map (cons y) (insert_everywhere x t)
+  end.
+Fixpoint perms {A} (l : list A) : list (list A) :=
+  match l with
+  | [] => [[]]
+  | x :: t => flat_map (insert_everywhere x) (perms t)
+  end.
+
+Definition nv_of (ps : list opkg) : list (string * string) :=
+  List.map (fun q => (p_name (q_pkg q), p_version (q_pkg q))) ps.
+
+(* is dependency [d] satisfied inside the observed set? (negative "!x" entries
+   are not requirements) *)
+Definition version_ok (c : constraint) (v : string) : bool :=
+  match c_version c with
+  | EmptyString => true
+  | _ => match parse_version v with
+         | Some av => match satisfied_by c av with Some b => b | None => false end
+         | None => false
+         end
+  end.
+Definition dep_satisfied (ps : list opkg) (d : string) : bool :=
+  match d with
+  | String "!" _ => true
+  | _ =>
+    let c := resolve_constraint d in
+    existsb (fun q =>
+      (String.eqb (p_name (q_pkg q)) (c_name c) && version_ok c (p_version (q_pkg q))) ||
+      existsb (fun prov => let pc := resolve_constraint prov in
+                           String.eqb (c_name pc) (c_name c) &&
+                           match c_version c with
+                           | EmptyString => true
+                           | _ => match c_version pc with EmptyString => false | pv => version_ok c pv end
+                           end) (p_provides (q_pkg q))) ps
+  end.
+Definition closed_b (ps : list opkg) : bool :=
+  forallb (fun q => forallb (dep_satisfied ps) (q_deps q)) ps.
+
+(* an entry of the lock list for package [n] that carries no pin *)
+Definition has_at (s : string) : bool := has_char "@"%char s.
+Definition entry_for (n : string) (l : list string) : option string :=
+  find (fun e => match cut_at "="%char e with Some (a, _) => String.eqb a n | None => false end) l.
+Definition unpinned_tagged (ps : list opkg) (lockl : list string) : bool :=
+  existsb (fun q => q_tagged_only q &&
+                    match entry_for (p_name (q_pkg q)) lockl with Some e => negb (has_at e) | None => true end) ps.
+
+(* why a re-resolution may legitimately be expected to fail today: each
+   alternative is one recorded finding's mechanism *)
+Definition relock_failure_tag (what : string) (ps : list opkg) (lockl : list string) : string :=
+  if unpinned_tagged ps lockl then "viol:fixpoint/unpinned-entry-for-package-from-tagged-repo"
+  else if negb (closed_b ps) then "viol:fixpoint/origin-resolution-not-closed"
+  else "viol:" ++ what.
+
+Definition judge_relock (res : list (string * list opkg)) (locks : bymap)
+    (relock : list (string * option (list (string * string)))) : list string :=
+  List.concat (List.map (fun ar =>
+    let '(arch, r) := ar in
+    match alookup arch res with
+    | None => ["mismatch:relock-of-unknown-arch"]
+    | Some ps =>
+        match r with
+        | None => [relock_failure_tag "relock-fails" ps (pget arch locks)]
+        | Some l => if same_members_b l (nv_of ps) then []
+                    else [relock_failure_tag "relock-differs" ps (pget arch locks)]
+        end
+    end) relock).
+
+Definition judge_index_relock (res : list (string * list opkg)) (locks : bymap)
+    (ir : option (option (list (string * list (string * string))))) : list string :=
+  match ir with
+  | None => []
+  | Some None =>
+      match res with
+      | (_, ps) :: _ => [relock_failure_tag "index-relock-fails" (List.concat (List.map snd res)) (pget unify_index_key locks)]
+      | [] => []
+      end
+  | Some (Some per) =>
+      List.concat (List.map (fun al =>
+        match alookup (fst al) res with
+        | Some ps => if same_members_b (snd al) (nv_of ps) then []
+                     else [relock_failure_tag "index-relock-differs" ps (pget unify_index_key locks)]
+        | None => ["mismatch:index-relock-of-unknown-arch"]
+        end) per)
+  end.
+
+Definition check_api (c : api_case) : list string :=
+  match e_resolution c with
+  | None =>
+      tag_if (negb (forallb (fun o => match o with UErr => true | _ => false end) (e_lock_runs c)))
+             "mismatch:lock-succeeds-where-resolution-fails"
+  | Some res =>
+      let archs := List.map (fun ap => (fst ap, List.map q_pkg (snd ap))) res in
+      let models := List.map (fun p => model_obs (lock_image_configuration id_ord id_ordp (e_originals c) p)) (perms archs) in
+      let inputs := List.map (fun ap => resolved_of (fst ap) (snd ap)) archs in
+      tag_if (negb (forallb (fun o => existsb (fun m => match m with Some mo => uobs_eqb mo o | None => false end) models) (e_lock_runs c)))
+             "mismatch:lock-image-configuration" ++
+      match find (fun o => match o with UOk _ _ => true | _ => false end) (e_lock_runs c) with
+      | Some (UOk bya mba as o) =>
+          (if clean_originals_b (e_originals c) then judge_unify (e_originals c) inputs o else []) ++
+          judge_relock res bya (e_relock c) ++
+          judge_index_relock res bya (e_index_relock c)
+      | _ => []
+      end
+  end.
+
+(* ---- stage "cli": apko lock / apko build [--lockfile] --------------------------- *)
+Record lf_pkg := {
+  f_name : string; f_version : string; f_arch : string;
+  f_file_known : bool;               (* the url names a file byte-equal to the package the harness built *)
+  f_sig : section; f_ctl : section; f_dat : section; f_checksum : string;     (* as written in lock.json *)
+  f_sig_nums : section_nums; f_ctl_nums : section_nums; f_dat_nums : section_nums;  (* the ranges, parsed (hi = -2: unparsable) *)
+  f_file_len : Z;
+  f_sizes : Z * Z * Z;                                 (* true member sizes: signature, control, data *)
+  f_true_hashes : string * string * string;            (* base64 of sha1(sig), sha1(control), sha256(data) of the true members *)
+  f_range_hashes : string * string * string;           (* the same hashes recomputed over the RECORDED ranges of the file *)
+  f_true_q1 : string                                   (* "Q1" + base64 sha1 of the control member *)
+}.
+Record lockfile_case := {
+  lf_archs : list string; lf_resolvable : bool; lf_locked : bool;
+  lf_resolution : list (string * list (string * string));   (* per architecture, install order *)
+  lf_pkgs : list lf_pkg
+}.
+Record build_case := {
+  b_arch : string; b_repo_changed : bool; b_listed : list (string * string);
+  b_locked_ok : bool; b_plain_ok : bool;
+  b_locked_installed : list (string * string); b_plain_installed : list (string * string);
+  b_locked_manifest : string; b_plain_manifest : string
+}.
+Inductive cli_case := CLock (l : lockfile_case) | CBuild (b : build_case).
+
+Definition section_eqb (a b : section) : bool :=
+  String.eqb (s_range a) (s_range b) && String.eqb (s_checksum a) (s_checksum b).
+
+Definition check_lf_pkg (p : lf_pkg) : list string :=
+  let '(zs, zc, zd) := f_sizes p in
+  let '(hs, hc, hd) := f_true_hashes p in
+  let '(rs, rc, rd) := f_range_hashes p in
+  let sig_present := negb (String.eqb (s_range (f_sig p)) "") in
+  tag_if (negb (f_file_known p)) "viol:lock-url-is-not-the-package-file" ++
+  tag_if (negb (ranges_tile_b sig_present (f_sig_nums p) (f_ctl_nums p) (f_dat_nums p) (f_file_len p)))
+         "viol:lock-ranges-do-not-tile-the-file" ++
+  tag_if (negb ((if sig_present then String.eqb (s_checksum (f_sig p)) ("sha1-" ++ rs) else true) &&
+                String.eqb (s_checksum (f_ctl p)) ("sha1-" ++ rc) &&
+                String.eqb (s_checksum (f_dat p)) ("sha256-" ++ rd)))
+         "viol:lock-checksum-is-not-the-hash-of-the-recorded-range" ++
+  (if f_file_known p then
+     let e := {| e_signature_size := zs; e_control_size := zc; e_package_size := zd;
+                 e_signature_hash := bytes_of_string hs; e_control_hash := bytes_of_string hc;
+                 e_package_hash := bytes_of_string hd |} in
+     tag_if (negb (String.eqb (f_checksum p) (f_true_q1 p))) "viol:lock-apk-checksum-is-not-the-control-hash" ++
+     tag_if (negb (section_eqb (control_section string_of_bytes e) (f_ctl p) &&
+                   section_eqb (data_section string_of_bytes e) (f_dat p) &&
+                   section_eqb (signature_section string_of_bytes e) (f_sig p))) "mismatch:lock-section-text"
+   else []).
+
+Definition check_lockfile (c : lockfile_case) : list string :=
+  tag_if (lf_resolvable c && negb (lf_locked c)) "viol:apko-lock-fails-on-a-resolvable-configuration" ++
+  tag_if (negb (lf_resolvable c) && lf_locked c) "viol:apko-lock-succeeds-on-an-unresolvable-configuration" ++
+  (if lf_locked c && lf_resolvable c then
+     tag_if (negb (forallb (fun a =>
+        list_eqb nv_eqb
+          (List.map (fun p => (f_name p, f_version p)) (filter (fun p => String.eqb (f_arch p) a) (lf_pkgs c)))
+          (match alookup a (lf_resolution c) with Some l => l | None => [] end)) (lf_archs c)))
+        "viol:lockfile-packages-differ-from-resolution" ++
+     tag_if (negb (forallb (fun p => smem (f_arch p) (lf_archs c)) (lf_pkgs c))) "viol:lockfile-package-of-unrequested-arch" ++
+     List.concat (List.map check_lf_pkg (lf_pkgs c))
+   else []).
+
+Definition model_install (listed : list (string * string)) (arch : string) : res (list (string * string)) :=
+  build_from_lock (fun i => Some (i_name i, i_url i))
+    (List.map (fun nv => {| lp_name := fst nv; lp_url := snd nv; lp_version := snd nv; lp_arch := arch; lp_checksum := "Q1x" |}) listed) arch.
+
+Definition check_build (b : build_case) : list string :=
+  tag_if (b_plain_ok b && negb (b_locked_ok b)) "viol:locked-build-fails" ++
+  (if b_locked_ok b then
+     tag_if (negb (same_members_b (b_locked_installed b) (b_listed b))) "viol:locked-build-installs-other-than-listed" ++
+     tag_if (match model_install (b_listed b) (b_arch b) with
+             | Ok l => negb (list_eqb nv_eqb l (b_locked_installed b))
+             | _ => true
+             end) "mismatch:locked-install-order" ++
+     (if negb (b_repo_changed b) && b_plain_ok b then
+        tag_if (negb (String.eqb (b_locked_manifest b) (b_plain_manifest b))) "viol:locked-image-differs-from-unlocked" ++
+        tag_if (negb (same_members_b (b_locked_installed b) (b_plain_installed b))) "viol:locked-build-installs-other-than-unlocked"
+      else [])
+   else []).
+
+Definition check_cli (c : cli_case) : list string :=
+  match c with CLock l => check_lockfile l | CBuild b => check_build b end.
